@@ -67,6 +67,19 @@ Theorem C10_elem_sound_Div_exact : elem_sound f_div_x z_div.
 Proof. exact f_div_x_sound. Qed.
 Theorem C10_elem_sound_Equal : elem_sound (f_equal range) z_eq.
 Proof. exact f_equal_sound. Qed.
+(* ---- the operators Add/Sub/Mul/Div/Equal on tensors (scalar / vector values with the
+        broadcasting of symbolic_binary_op, falling back to the BinaryOp shape rule): every code
+        version; Equal for every version with the fixed SymExpr::range ---- *)
+Theorem C10_infer_sound_Add : forall v, sound_for v OAdd (fun cins _ => f70_free2 cins).
+Proof. exact infer_sound_Add. Qed.
+Theorem C10_infer_sound_Sub : forall v, sound_for v OSub (fun cins _ => f70_free2 cins).
+Proof. exact infer_sound_Sub. Qed.
+Theorem C10_infer_sound_Mul : forall v, sound_for v OMul (fun cins _ => f70_free2 cins).
+Proof. exact infer_sound_Mul. Qed.
+Theorem C10_infer_sound_Div : forall v, sound_for v ODiv (fun cins _ => f70_free2 cins).
+Proof. exact infer_sound_Div. Qed.
+Theorem C10_infer_sound_Equal : forall v, v_range v = range -> sound_for v OEqual (fun cins _ => f70_free2 cins).
+Proof. exact infer_sound_Equal. Qed.
 Theorem C10_F5_equal_fold_refuted :
   exists s x y vx vy e r,
     expr_cons s x vx = true /\ expr_cons s y vy = true /\
@@ -91,13 +104,8 @@ Theorem C10_oracle_reject_is_counterexample : forall c,
     inst_consistent c i = true /\ claims_all (env_of_list (i_env i)) outs couts = false.
 Proof. exact prop_ok_reject. Qed.
 
-(* ---- statements NOT proved (tensor-level theorems for the value-carrying operators; the
-        operators are modelled and tied by the correspondence check, and their element rules are
-        proved above) ---- *)
-Definition C10_infer_sound_Arith_statement : Prop :=
-  forall v, sound_for v OAdd (fun cins _ => f70_free2 cins) /\ sound_for v OSub (fun cins _ => f70_free2 cins) /\
-            sound_for v OMul (fun cins _ => f70_free2 cins) /\ sound_for v ODiv (fun cins _ => f70_free2 cins).
-Definition C10_infer_sound_Equal_statement : Prop := sound_for ver_fixed OEqual (fun cins _ => f70_free2 cins).
+(* ---- statements NOT proved (the remaining value-carrying operators; they are modelled and tied by
+        the correspondence check) ---- *)
 Definition C10_infer_sound_values_statement : Prop :=
   forall v, v_fixed v = true ->
     sound_for v OWhere (fun cins _ => True) /\ (forall a, sound_for v (OGather a) no_extra) /\
